@@ -5,6 +5,8 @@ package app
 import (
 	"context"
 	"errors"
+	"log/slog"
+	"time"
 
 	"github.com/danielgtaylor/huma/v2"
 )
@@ -26,8 +28,12 @@ type vStatusErr struct {
 func (e *vStatusErr) Error() string  { return e.msg }
 func (e *vStatusErr) GetStatus() int { return e.status }
 
-func vStubHuma404(msg string, errs ...error) huma.StatusError { return &vStatusErr{status: 404, msg: msg} }
-func vStubHuma400(msg string, errs ...error) huma.StatusError { return &vStatusErr{status: 400, msg: msg} }
+func vStubHuma404(msg string, errs ...error) huma.StatusError {
+	return &vStatusErr{status: 404, msg: msg}
+}
+func vStubHuma400(msg string, errs ...error) huma.StatusError {
+	return &vStatusErr{status: 400, msg: msg}
+}
 
 func vStatusOf(err error) int {
 	var se huma.StatusError
@@ -78,4 +84,31 @@ func vH_C16_api_delete_step() {
 	vAssert("C16.api.delete-ok", err == nil)
 	vAssert("C16.api.delete-cancels-the-session", cancelCalls >= 1)
 	vReach("C16.api.end")
+}
+
+// A step is handed to the session loop through the unbuffered trigger channel: triggerNextSegment returns only after
+// the loop has taken the step (every step delivers). With nobody receiving, the real send blocks (that path simply
+// ends in the single-goroutine model); returning anyway - e.g. after a timeout, modelled by a time.After channel that
+// is ready at once - means the step was dropped.
+func init() {
+	vHarnesses["vH_C16_step_is_never_dropped"] = vH_C16_step_is_never_dropped
+}
+
+func vStubTimeAfterReady(d time.Duration) <-chan time.Time {
+	ch := make(chan time.Time, 1)
+	ch <- time.Time{}
+	return ch
+}
+
+func vH_C16_step_is_never_dropped() {
+	taken := vBool("loopTakesTheStep")
+	capN := 0
+	if taken {
+		capN = 1 // a loop waiting at its select takes the step at once: modelled by room for one trigger
+	}
+	c := &cmafIngester{nextSegTrigger: make(chan struct{}, capN), log: slog.Default()}
+	c.triggerNextSegment()
+	// reaching this point means triggerNextSegment returned
+	vAssert("C16.stepapi.returns-only-after-the-step-was-taken", taken && len(c.nextSegTrigger) == 1)
+	vReach("C16.stepapi.end")
 }
